@@ -172,9 +172,9 @@ class Acc:
             "states": self.states,
             "transitions": self.transitions,
             "traces": self.traces,
-            "violations": self.violations,
+            "violations": json.loads(json.dumps(self.violations, default=_json_default)),
             "sigcount": dict(self.sigcount),
-            "samples": self.samples,
+            "samples": json.loads(json.dumps(self.samples, default=_json_default)),
             "counters": dict(self.counters),
             "exhaustive": self.exhaustive,
             "notes": self.notes,
@@ -261,9 +261,13 @@ def run_check(mod, tier: str, seed: int, only: str = None) -> int:
     results = [None] * len(chunks)
     nproc = min(NPROC, max(1, len(chunks)))
     ctx = mp.get_context("fork")
-    with ctx.Pool(nproc, initializer=_init, initargs=(mod.__name__, tier, seed)) as pool:
-        for idx, res in pool.imap_unordered(_work, [(i, chunks[i]) for i in order], chunksize=1):
-            results[idx] = res
+    try:
+        with ctx.Pool(nproc, initializer=_init, initargs=(mod.__name__, tier, seed)) as pool:
+            for idx, res in pool.imap_unordered(_work, [(i, chunks[i]) for i in order], chunksize=1):
+                results[idx] = res
+    except Exception:
+        sys.stderr.write(f"HARNESS-ERROR property={pid}: worker pool failed\n{traceback.format_exc()}\n")
+        return 2
     harness_errors = [r for r in results if "harness_error" in r]
     if harness_errors:
         for r in harness_errors[:3]:
